@@ -388,6 +388,82 @@ func init() {
 				}
 			}
 			stat("C08", "omap-roundtrip")
+			// ordered maps with typed values: the same keys, values and order after encode + decode, through both
+			// formats; and a shallow decode (values kept as YAML nodes) keeps the keys in order
+			{
+				ss := ordered.NewMap[string, string](0)
+				si := ordered.NewMap[string, int](0)
+				sl := ordered.NewMap[string, []string](0)
+				nk := len(keys)
+				for j := 0; j < nk; j++ {
+					k := fmt.Sprintf("t%d-%d", rng.Intn(50), j)
+					ss.Set(k, sx.Pick(rng, []string{"", "v", "true", "1", "multi\nline", "~"}))
+					si.Set(k, rng.Intn(100)-50)
+					sl.Set(k, [][]string{{}, {"a"}, {"a", "", "b"}}[rng.Intn(3)])
+				}
+				if nk > 1 {
+					ss.Delete("absent")
+					var first string
+					ss.Range(func(k string, _ string) error { first = k; return fmt.Errorf("stop") })
+					ss.Delete(first)
+					ss.Set(first, "again at the end")
+				}
+				c08typed(ss, ordered.NewMap[string, string](0), ordered.NewMap[string, string](0), func(a, b string) bool { return a == b })
+				c08typed(si, ordered.NewMap[string, int](0), ordered.NewMap[string, int](0), func(a, b int) bool { return a == b })
+				c08typed(sl, ordered.NewMap[string, []string](0), ordered.NewMap[string, []string](0), func(a, b []string) bool { return fmt.Sprintf("%q", a) == fmt.Sprintf("%q", b) })
+				if yb3, err := yaml.Marshal(om); err == nil {
+					shallow := ordered.NewMap[string, *yaml.Node](0)
+					var got []string
+					err := yaml.Unmarshal(yb3, shallow)
+					shallow.Range(func(k string, n *yaml.Node) error {
+						if n == nil {
+							k += " (nil node)"
+						}
+						got = append(got, k)
+						return nil
+					})
+					if om.Len() > 0 && (err != nil || fmt.Sprint(got) != fmt.Sprint(liveKeys)) {
+						oracleFail("C08", "omap-shallow-decode", sx.A(string(yb3)), fmt.Sprintf("decoding into an ordered map of YAML nodes gives keys %q (err=%v), the map holds %q", got, err, liveKeys))
+					}
+				}
+				stat("C08", "omap-typed-roundtrip")
+			}
 		}
+	}
+}
+
+// c08typed: an ordered map with typed values survives JSON and YAML encode + decode
+func c08typed[V any](m, viaJSON, viaYAML *ordered.Map[string, V], eq func(a, b V) bool) {
+	same := func(a, b *ordered.Map[string, V]) string {
+		var ka, kb []string
+		var va, vb []V
+		a.Range(func(k string, v V) error { ka, va = append(ka, k), append(va, v); return nil })
+		b.Range(func(k string, v V) error { kb, vb = append(kb, k), append(vb, v); return nil })
+		if fmt.Sprintf("%q", ka) != fmt.Sprintf("%q", kb) {
+			return fmt.Sprintf("keys %q became %q", ka, kb)
+		}
+		for i := range va {
+			if !eq(va[i], vb[i]) {
+				return fmt.Sprintf("value of %q: %v became %v", ka[i], va[i], vb[i])
+			}
+		}
+		return ""
+	}
+	if m.Len() == 0 {
+		return // an empty mapping is `{}`: nothing to keep in order
+	}
+	if jb, err := json.Marshal(m); err != nil {
+		oracleFail("C08", "omap-typed-json-roundtrip", sx.A(fmt.Sprintf("%T", m)), "json.Marshal: "+err.Error())
+	} else if err := json.Unmarshal(jb, viaJSON); err != nil {
+		oracleFail("C08", "omap-typed-json-roundtrip", sx.A(string(jb)), fmt.Sprintf("%T: json.Unmarshal: %v", m, err))
+	} else if d := same(m, viaJSON); d != "" {
+		oracleFail("C08", "omap-typed-json-roundtrip", sx.A(string(jb)), fmt.Sprintf("%T differs after JSON encode+decode: %s", m, d))
+	}
+	if yb, err := yaml.Marshal(m); err != nil {
+		oracleFail("C08", "omap-typed-yaml-roundtrip", sx.A(fmt.Sprintf("%T", m)), "yaml.Marshal: "+err.Error())
+	} else if err := yaml.Unmarshal(yb, viaYAML); err != nil {
+		oracleFail("C08", "omap-typed-yaml-roundtrip", sx.A(string(yb)), fmt.Sprintf("%T: yaml.Unmarshal: %v", m, err))
+	} else if d := same(m, viaYAML); d != "" {
+		oracleFail("C08", "omap-typed-yaml-roundtrip", sx.A(string(yb)), fmt.Sprintf("%T differs after YAML encode+decode: %s", m, d))
 	}
 }
